@@ -51,6 +51,8 @@ def build_batches(scratch, versions, tier, rng_tag, n_stdlib, n_gen, batch=25, f
                 it["pyc_flags"] = 1 if i % 8 == 1 else 3  # PEP 552 hash-based file (unchecked / checked)
             elif i % 4 == 2:
                 it["mtime"] = rng.choice([0, 1, 0x7FFFFFFF, 0x80000000, 0xFFFFFFFF, 1700000000])
+            elif i % 4 == 3:
+                it["inline_dumps"] = True  # top-level code object not flagged in the reference table
             items.append(it)
         # programs that must be present whatever the seed: one per named feature template
         for j, tname in enumerate(must_templates):
